@@ -158,6 +158,10 @@ class System:
         cls = XmlWrite.XhtmlStream if writer == 'XhtmlStream' else XmlWrite.XmlStream
         self.stream = cls(self.out)
         self.stream.__enter__()
+        # a second writer of the same class alive at the same time, writing its own document in between (a page and its index)
+        self.shadow = self.X.XmlStream(io.StringIO())
+        self.shadow.__enter__()
+        self.shadow.startElement('index', {})
         self.elems = []
         self.history = []
         self.root = None
@@ -184,6 +188,14 @@ class System:
         kind = op[0]
         st = self.stream
         self.history.append(op)
+        self.shadow.startElement('entry', {'n': str(len(self.history))})
+        try:
+            self._apply(op, kind, st)
+        finally:
+            self.shadow.characters('x')
+            self.shadow.endElement('entry')
+
+    def _apply(self, op, kind, st):
         if kind == 'start':
             _, name, attrs = op
             if self.api == 'element':
